@@ -84,6 +84,9 @@ pub fn expected_sections(
             false,
             Rcode::NoError,
         ),
+        // a referral out of an authoritative local zone: no answer, the
+        // delegation's NS records in the authority section, not authoritative
+        Ok(ResolvedRecord::Referral { ns_rrs }) => (Vec::new(), ns_rrs.clone(), false, Rcode::NoError),
         Err(_) => (Vec::new(), Vec::new(), false, Rcode::NoError),
     };
     if an.is_empty() && au.is_empty() && rc == Rcode::NoError {
